@@ -808,6 +808,237 @@ def factory_cases(ctx, T, lean_ok):
         b.run(ctx, "factory")
 
 
+
+# ---- every public entry point that takes a `logic`, on recording stub classes
+FORMULA_ENTRIES = ["is_sat", "is_valid", "is_unsat", "get_model", "get_implicant", "get_unsat_core", "qelim",
+                   "binary_interpolant", "sequence_interpolant"]
+CTOR_ENTRIES = ["Solver", "UnsatCoreSolver", "QuantifierEliminator", "Interpolator", "Optimizer"]
+ENTRY_KIND = {"is_sat": "Solver", "is_valid": "Solver", "is_unsat": "Solver", "get_model": "Solver",
+              "get_implicant": "Solver", "get_unsat_core": "Solver supporting Unsat Cores",
+              "qelim": "Quantifier Eliminator", "binary_interpolant": "Interpolator",
+              "sequence_interpolant": "Interpolator", "Solver": "Solver",
+              "UnsatCoreSolver": "Solver supporting Unsat Cores", "QuantifierEliminator": "Quantifier Eliminator",
+              "Interpolator": "Interpolator", "Optimizer": "Optimizer"}
+_RECORD = []
+
+
+class _RecordingStub(object):
+    """stands in for a solver / eliminator / interpolator / optimizer class: records the logic it is created with"""
+    LOGICS = []
+
+    def __init__(self, environment=None, logic=None, **kwargs):
+        _RECORD.append((type(self), logic))
+
+    def __enter__(self):
+        return self
+
+    def __exit__(self, *a):
+        return False
+
+    def exit(self):
+        pass
+
+    def is_sat(self, f):
+        return True
+    is_valid = is_unsat = is_sat
+
+    def add_assertion(self, f, named=None):
+        pass
+
+    def solve(self, assumptions=None):
+        return False
+
+    def get_model(self):
+        return None
+
+    def get_unsat_core(self):
+        return set()
+
+    def eliminate_quantifiers(self, f):
+        return f
+
+    def binary_interpolant(self, a, b):
+        return None
+
+    def sequence_interpolant(self, fs):
+        return None
+
+
+def call_entry(entry, f, name, logic_kw):
+    """through pysmt.shortcuts (which forward to get_env().factory)"""
+    import pysmt.shortcuts as SC
+    fn = getattr(SC, entry)
+    if entry in CTOR_ENTRIES:
+        return fn(name=name, **logic_kw)
+    if entry == "get_unsat_core":
+        return fn([f], solver_name=name, **logic_kw)
+    if entry == "binary_interpolant":
+        return fn(f, f, solver_name=name, **logic_kw)
+    if entry == "sequence_interpolant":
+        return fn([f, f], solver_name=name, **logic_kw)
+    return fn(f, solver_name=name, **logic_kw)
+
+
+class StubFactory(object):
+    """temporarily replaces the five class tables and the preference lists of the global environment's factory"""
+    ATTRS = ["_all_solvers", "_all_unsat_core_solvers", "_all_qelims", "_all_interpolators", "_all_optimizers"]
+
+    def __init__(self, classes, prefs):
+        self.fac = get_env().factory
+        self.classes, self.prefs = classes, prefs
+
+    def __enter__(self):
+        self.saved = {a: getattr(self.fac, a) for a in self.ATTRS}
+        self.saved_prefs = dict(self.fac.preferences)
+        for a in self.ATTRS:
+            setattr(self.fac, a, dict(self.classes))
+        for k in set(ENTRY_KIND.values()):
+            self.fac.preferences[k] = list(self.prefs)
+        return self.fac
+
+    def __exit__(self, *a):
+        for k, v in self.saved.items():
+            setattr(self.fac, k, v)
+        self.fac.preferences.clear()
+        self.fac.preferences.update(self.saved_prefs)
+        return False
+
+
+def entry_outcome(entry, f, name, logic_kw, classes):
+    del _RECORD[:]
+    try:
+        with warnings.catch_warnings():
+            warnings.simplefilter("ignore")
+            call_entry(entry, f, name, logic_kw)
+    except (NoLogicAvailableError, UndefinedLogicError, NoSolverAvailableError, IndexError) as e:
+        return ("err", type(e).__name__)
+    if len(_RECORD) != 1:
+        return ("err", "instances=%d" % len(_RECORD))
+    cls, L = _RECORD[0]
+    nm = [k for k, v in classes.items() if v is cls]
+    return ("ok", nm[0] if nm else "?", L)
+
+
+def factory_entry_points(ctx, T, lean_ok):
+    from pysmt.oracles import get_logic
+    r = ctx.rng
+    env = get_env()
+    sh = Shapes(env)
+    m = env.formula_manager
+    I, R = m.Int, m.Real
+    formulas = [("bool", m.And(sh.b, m.Not(sh.b2))), ("idl", m.LE(m.Minus(sh.x, sh.y), I(3))),
+                ("lia", m.LE(m.Plus(sh.x, sh.y), sh.z)), ("lra", m.LT(m.Plus(sh.r, sh.s), R(1))),
+                ("bv", m.BVULT(m.BVAdd(sh.v, sh.w), sh.w)), ("nia", m.Equals(m.Times(sh.x, sh.y), I(6))),
+                ("qlia", m.Exists([sh.y], m.GT(m.Plus(sh.y, sh.y), sh.x))),
+                ("qbool", m.ForAll([sh.b], m.Or(sh.b, sh.b2))), ("uflira", m.LT(m.ToReal(sh.app(sh.fII, sh.x)), sh.r)),
+                ("arr", m.Equals(m.Select(sh.aii, sh.x), sh.y)), ("str", m.Equals(m.StrLength(sh.st), sh.x))]
+    by = T.named
+    fixed = [("boolonly", ["BOOL"]), ("qfbool", ["QF_BOOL"]), ("lia", ["LIA", "QF_UFLIRA"]), ("bv", ["QF_BV", "BV"]),
+             ("big", ["QF_AUFBVLIRA", "UFLIRA", "QF_NIA", "QF_SLIA"])]
+    n_scen = 3 if ctx.tier == "quick" else 12
+    b = Batch()
+    for sc in range(n_scen):
+        specs = list(fixed) if sc == 0 else r.sample(fixed, r.choice([2, 3, 4]))
+        if sc > 0:
+            for k in range(r.choice([0, 1, 2])):
+                specs.append(("rnd%d" % k, [l.name for l in r.sample(T.table, r.choice([1, 2, 4]))]))
+        classes = {nm: type("C13Entry_" + nm, (_RecordingStub,), {"LOGICS": [by[x] for x in ls]}) for nm, ls in specs}
+        names = [nm for nm, _ in specs]
+        prefs = list(names) if sc == 0 else r.sample(names, len(names))
+        with StubFactory(classes, prefs) as fac:
+            defaults = {"Solver": fac.default_logic, "Solver supporting Unsat Cores": fac.default_logic,
+                        "Quantifier Eliminator": fac.default_qe_logic, "Interpolator": fac._default_interpolation_logic,
+                        "Optimizer": fac._default_optimizer_logic}
+            for tag, f in formulas:
+                need, quant, extra = features(f)
+                nb = need_bits(dict(extra, **need))
+                det = outcome(get_logic, f)
+                for entry in FORMULA_ENTRIES + (CTOR_ENTRIES if tag == "bool" else []):
+                    ctor = entry in CTOR_ENTRIES
+                    for name in (None, r.choice(names)):
+                        explicit = r.choice(T.table) if r.random() < 0.5 or det[0] != "ok" else det[1]
+                        modes = [("omitted", {}), ("None", {"logic": None}), ("AUTO", {"logic": PL.AUTO}),
+                                 ("object", {"logic": explicit}), ("string", {"logic": explicit.name})]
+                        res = {}
+                        for mode, kw in modes:
+                            o = entry_outcome(entry, f, name, kw, classes)
+                            res[mode] = o
+                            rp = {"kind": "factory-entry", "entry": entry, "mode": mode, "solver_name": name,
+                                  "formula": f.serialize(), "wire": wire.enc_term(f), "tag": tag,
+                                  "explicit": list(lkey(explicit)), "prefs": prefs,
+                                  "solvers": [[nm, ls] for nm, ls in specs]}
+                            sig = {"oracle": "factory-entry", "entry": entry, "mode": mode}
+                            ctx.case(("entry", entry, mode, tag, name is None, o[0] == "ok"))
+                            ctx.count("entry_" + (o[0] if o[0] == "ok" else o[1]))
+                            # the target the call is about
+                            if mode in ("object", "string"):
+                                target = explicit
+                            elif ctor:
+                                target = None if mode == "AUTO" else defaults[ENTRY_KIND[entry]]
+                                if name is not None and mode != "AUTO":
+                                    target = None       # most generic logic of the class / default: covered by K
+                            else:
+                                target = det[1] if det[0] == "ok" else None
+                                if det[0] != "ok" and o != ("err", det[1]):
+                                    ctx.report_s(dict(sig, axiom="detection-error"),
+                                                 "%s(%s, logic %s): get_logic raises %s but the call gives %s" % (
+                                                     entry, f.serialize()[:80], mode, det[1], o[:2]), rp)
+                            if o[0] == "ok" and target is not None:
+                                cls, L = classes[o[1]], o[2]
+                                why = None
+                                if not any(target <= l for l in cls.LOGICS):
+                                    why = "selects %s, none of whose LOGICS is above %s" % (o[1], target.name)
+                                elif not isinstance(L, PL.Logic) or not any(L is l for l in cls.LOGICS):
+                                    why = "creates %s with %s, not one of its LOGICS" % (o[1], L)
+                                elif not (target <= L) or uncovered(tbits(L.theory), tbits(target.theory)) or \
+                                        (not target.quantifier_free and L.quantifier_free):
+                                    why = "creates %s with logic %s, which cannot express %s" % (o[1], L.name, target.name)
+                                elif not ctor and mode in ("omitted", "None", "AUTO") and \
+                                        (uncovered(tbits(L.theory), nb) or (quant and L.quantifier_free)):
+                                    why = "hands the formula to %s with logic %s, which cannot express it" % (o[1], L.name)
+                                if why:
+                                    ctx.report_s(dict(sig, axiom="spec"),
+                                                 "%s(`%s`, solver_name=%s, logic=%s) %s" % (
+                                                     entry, f.serialize()[:100], name, mode if mode in ("omitted", "None", "AUTO")
+                                                     else explicit.name, why), rp)
+                            # K against the model of _get_solver_class composed with the wrapper
+                            if lean_ok and mode != "AUTO" or (lean_ok and not ctor):
+                                if mode in ("object", "string"):
+                                    ltok = T.tok(explicit)
+                                elif ctor:
+                                    ltok = "-"
+                                elif det[0] == "ok":
+                                    ltok = T.tok(det[1])
+                                else:
+                                    ltok = None
+                                if ltok is not None and not (ctor and mode == "AUTO"):
+                                    exp = ("ok %s %s %d %s" % (o[1], o[2].name, 1 if o[2].quantifier_free else 0, tbits(o[2].theory))
+                                           if o[0] == "ok" and isinstance(o[2], PL.Logic) else "err " + str(o[1]))
+                                    line = "factory %s %s %s %d %s %d %s" % (
+                                        T.tok(defaults[ENTRY_KIND[entry]]), name if name is not None else "-", ltok,
+                                        len(prefs), " ".join(prefs), len(specs),
+                                        " ".join("%s %d %s" % (nm, len(ls), " ".join("n:" + x for x in ls)) for nm, ls in specs))
+                                    b.add(" ".join(line.split()), exp, "%s %s logic=%s name=%s" % (entry, tag, mode, name))
+                        # omitted / None / AUTO must behave alike
+                        if not ctor:
+                            base = res["omitted"]
+                            for mode in ("None", "AUTO"):
+                                if res[mode][:2] != base[:2] or (base[0] == "ok" and not same(res[mode][2], base[2])):
+                                    ctx.report_s({"oracle": "factory-entry", "entry": entry, "mode": mode, "axiom": "auto-modes-agree"},
+                                                 "%s(`%s`, solver_name=%s): logic omitted gives %s but logic=%s gives %s" % (
+                                                     entry, f.serialize()[:100], name, show_entry(base), mode, show_entry(res[mode])),
+                                                 {"kind": "factory-entry", "entry": entry, "mode": mode, "solver_name": name,
+                                                  "formula": f.serialize(), "wire": wire.enc_term(f), "tag": tag,
+                                                  "explicit": list(lkey(explicit)), "prefs": prefs,
+                                                  "solvers": [[nm, ls] for nm, ls in specs]})
+    if lean_ok:
+        b.run(ctx, "factory-entry")
+
+
+def show_entry(o):
+    return "%s with %s" % (o[1], o[2].name if isinstance(o[2], PL.Logic) else o[2]) if o[0] == "ok" else "err " + str(o[1])
+
+
 def quantified_version(ctx, T):
     """Logic.get_quantified_version: a quantified logic above the receiver (or NoLogicAvailableError)"""
     for l in T.table:
@@ -1558,6 +1789,7 @@ def run(ctx):
     selection(ctx, T, lean_ok)
     quantified_version(ctx, T)
     factory_cases(ctx, T, lean_ok and caps is not None and "factory" in caps)
+    factory_entry_points(ctx, T, lean_ok and caps is not None and "factory" in caps)
     # ---- detection
     detection(ctx, caps)
 
@@ -1639,6 +1871,23 @@ def replay(ctx, rep):
                 ctx.report_s({"oracle": "factory", "axiom": "spec"}, "still wrong on replay", r)
         else:
             print("implementation:", o)
+    elif k == "factory-entry":
+        env = get_env()
+        f = build_fnode(env, wire.dec_term(r["wire"]))
+        classes = {nm: type("C13Entry_" + nm, (_RecordingStub,), {"LOGICS": [T.named[x] for x in ls]})
+                   for nm, ls in r["solvers"]}
+        explicit = T.named.get(r["explicit"][0]) or logic_of(r["explicit"])
+        kws = {"omitted": {}, "None": {"logic": None}, "AUTO": {"logic": PL.AUTO}, "object": {"logic": explicit},
+               "string": {"logic": explicit.name}}
+        with StubFactory(classes, r["prefs"]):
+            base = entry_outcome(r["entry"], f, r["solver_name"], kws["omitted"], classes)
+            o = entry_outcome(r["entry"], f, r["solver_name"], kws[r["mode"]], classes)
+        print("formula:", f.serialize(), " entry:", r["entry"], " solver_name:", r["solver_name"])
+        print("logic omitted ->", show_entry(base), "   logic=%s ->" % r["mode"], show_entry(o))
+        if r["mode"] in ("None", "AUTO") and r["entry"] in FORMULA_ENTRIES and \
+                (o[:2] != base[:2] or (o[0] == "ok" and not same(o[2], base[2]))):
+            ctx.report_s({"oracle": "factory-entry", "entry": r["entry"], "mode": r["mode"], "axiom": "auto-modes-agree"},
+                         "still disagree on replay", r)
     elif k == "k-line":
         try:
             print("model now:", ctx.lean_run("C13", [r["request"]])[0], " recorded impl:", r["impl"])
